@@ -319,4 +319,59 @@ theorem openStdout_spec (noSparse : Bool) (mode : Mode) (d : Dest) :
     simp [openStdout, sparseOk, ho]
 
 
+theorem ioWrites_pending (cfg : Cfg) (ws : List (List UInt8)) :
+    ∀ s : St, s.trySparse = false → (ioWrites cfg s ws).1.pending = s.pending := by
+  induction ws with
+  | nil => intro s _; rfl
+  | cons b bs ih =>
+    intro s hs
+    have hw : ioWrite cfg s b = (ioWriteBuf s b, false) := by unfold ioWrite; simp [hs]
+    unfold ioWrites
+    rw [hw]
+    have hs' : (ioWriteBuf s b).trySparse = false := by rw [(ioWriteBuf_frame s b).sparse]; exact hs
+    simp only
+    rw [ih _ hs']
+    unfold ioWriteBuf; split <;> rfl
+
+@[simp] theorem ioWriteBuf_restore (s : St) (b : List UInt8) : (ioWriteBuf s b).restoreFlags = s.restoreFlags :=
+  (ioWriteBuf_frame s b).restore
+@[simp] theorem ioWriteBuf_saved (s : St) (b : List UInt8) : (ioWriteBuf s b).savedFlags = s.savedFlags :=
+  (ioWriteBuf_frame s b).saved
+@[simp] theorem ioWriteBuf_flags (s : St) (b : List UInt8) : (ioWriteBuf s b).dest.flags = s.dest.flags :=
+  (ioWriteBuf_frame s b).flags
+
+theorem ioClose_flags (cfg : Cfg) (s : St) (success : Bool) :
+    (ioClose cfg s success).dest.flags = (if s.restoreFlags then s.savedFlags else s.dest.flags) ∧
+    (ioClose cfg s success).restoreFlags = false := by
+  unfold ioClose
+  simp only [ioCloseDest_restore, and_true, ioCloseDest_flags]
+  split
+  · cases hk : s.dest.kind with
+    | other => simp [Dest.seekCur, hk]
+    | regular => simp [Dest.seekCur, hk]
+  · rfl
+
+theorem new_file_content (cfg : Cfg) (hB : 0 < cfg.bufSize) (noSparse : Bool) (mode : Mode) (ws : List (List UInt8)) :
+    (ioClose cfg (ioWrites cfg (openNew noSparse mode) ws).1 true).dest.content = ws.flatten := by
+  cases hts : (openNew noSparse mode).trySparse with
+  | true =>
+    have h0 : Inv [] [] (openNew noSparse mode) := ⟨rfl, rfl, rfl, by simp [openNew, zeros], hts⟩
+    obtain ⟨_, h2⟩ := ioWrites_inv cfg hB ws h0
+    simpa using (ioClose_success_inv cfg h2).1
+  | false =>
+    obtain ⟨_, p2⟩ := plain_writes cfg ws _ hts
+    have hfr := ioWrites_frame cfg ws (openNew noSparse mode)
+    have : (ioClose cfg (ioWrites cfg (openNew noSparse mode) ws).1 true).dest.content
+        = (ioWrites cfg (openNew noSparse mode) ws).1.dest.content := by
+      unfold ioClose; simp [hfr.sparse, hts]
+    rw [this, p2]
+    simp only [expectedContent, openNew]
+    cases hW : ws.flatten with
+    | nil => simp
+    | cons w rest =>
+      have := overwriteAt_past_end [] (w :: rest) 0
+      simp [zeros] at this
+      simp [this]
+
+
 end XzVerif.Sparse
